@@ -277,7 +277,8 @@ claim(
     "C37_grow_returns_claim). The buffer-pointer tables are modelled separately (Model/ArenaTables.lean: table identities, "
     "deleteLater_, reader snapshots between the two halves of operator[]): in every history no reader ever indexes a freed "
     "table and, while the arena is alive, every table ever published is current or retained (C37_tables_no_uaf, "
-    "C37_tables_retained); tie: white-box sequential harness playing suspended readers across re-allocations (capacity, "
+    "C37_tables_retained; C37_tables_refine_seq: its alloc step moves capacity and entries exactly as the value model's "
+    "allocateBuffer); tie: white-box sequential harness playing suspended readers across re-allocations (capacity, "
     "entries, deleteLater_ size per allocateBuffer; ASan on the retired tables). Sequential tie: differential vs the value model under ASan; concurrent tie: traces under "
     "the deterministic scheduler replayed through the protocol model; native tie: the real ThreadSanitizer on lock-free "
     "readers (operator[], getBuffer) running against growers that cross table-capacity boundaries, which reports any read "
